@@ -775,6 +775,9 @@ def build_pipeline_inspection(
             created_keys.add(node.context_key)
             key_origin[node.context_key] = index
 
+        # Keys deleted by earlier nodes, before this node's own effects
+        deleted_at_entry = set(deleted_keys)
+
         # Update key origin tracking for all created keys
         for key in created_keys:
             if key in deleted_keys:
@@ -790,7 +793,7 @@ def build_pipeline_inspection(
             deleted_keys.update(suppressed_keys)
 
         # Validate parameter availability against deleted keys
-        missing_deleted = (required_params & deleted_keys) - suppressed_keys
+        missing_deleted = required_params & deleted_at_entry
         if missing_deleted - set(config_params.keys()):
             node_errors.append(
                 f"Node {index} requires context keys previously deleted: {sorted(missing_deleted)}"
